@@ -647,8 +647,21 @@ bool url::set_host_or_hostname(const std::string_view input) {
       // Set url's host to host, buffer to the empty string, and state to port
       // state.
       std::string_view port_buffer = new_host.substr(location + 1);
-      if (!port_buffer.empty()) {
-        set_port(port_buffer);
+      if (!port_buffer.empty() &&
+          ada::unicode::is_ascii_digit(port_buffer.front())) {
+        // Port state on the leading digits. The length check is left to the
+        // end of this call: set_port() enforces the limit on its own and
+        // would roll back only the port, keeping the new host.
+        auto first_non_digit =
+            std::ranges::find_if_not(port_buffer, ada::unicode::is_ascii_digit);
+        std::string_view digits_to_parse(
+            port_buffer.data(), first_non_digit - port_buffer.begin());
+        std::optional<uint16_t> previous_port = port;
+        parse_port(digits_to_parse);
+        if (!is_valid) {
+          port = std::move(previous_port);
+          is_valid = true;
+        }
       }
       return check_url_size();
     }
